@@ -45,6 +45,14 @@ def shrink_compile(f):
         keep = ".".join(x for x in flags.split(".") if x in ("s", "z", "j"))
         if keep != flags:
             yield emit(pipes, decls[:i] + [head + "~" + keep] + decls[i + 1:])
+    # one flag at a time (a further register annotation, a second group attribute, a storage keyword, ...)
+    for i, d in enumerate(decls):
+        head, flags = d.split("~")
+        fl = [x for x in flags.split(".") if x]
+        for k in range(len(fl)):
+            if fl[k] in ("s", "z", "j"):
+                continue
+            yield emit(pipes, decls[:i] + [head + "~" + ".".join(fl[:k] + fl[k + 1:])] + decls[i + 1:])
 
 
 def shrink(req):
